@@ -22,9 +22,13 @@
      [13; slot; fuel; tok*]            -> [13; encoded result of run]
      [14; slotC; slotF; idx*]          -> [14; 1 if load picks the cached table else 0]
      [15; n; idx^n; idx*]              -> [15; prodset_eqb of the two production lists]
+     [20; state; pcode; dot; sym*]     LR(1) item core of the current table: pcode 0 = S' -> start, k+1 = k-th
+                                       production of the grammar it will be checked against; sym* = look-aheads
+     [21; X; nullable; sym*]           FIRST certificate entry for nonterminal X
+     [22; gslot; slot]                 -> [22; gslot; slot; check_complete]   (and clears the FIRST certificate)
    Anything else (or a reference to an undefined slot/production)  -> [0; tag]. *)
 From Coq Require Import Arith NArith PArith List Bool FMapPositive.
-Require Import EmbossV.LR.Driver EmbossV.LR.Sound EmbossV.LR.Bisim.
+Require Import EmbossV.LR.Driver EmbossV.LR.Sound EmbossV.LR.Bisim EmbossV.LR.Complete.
 Import ListNotations.
 Open Scope N_scope.
 
@@ -36,23 +40,51 @@ Record xstate := {
   x_slot : N;
   x_cur : tables;
   x_cert : cert;
-  x_slots : nmap (tables * cert);
+  x_items : icert;
+  x_first : fcert;
+  x_slots : nmap (tables * cert * icert);
   x_grams : nmap grammar;
   x_rel : rel;
   x_out : list (list N)            (* reversed *)
 }.
 
 Definition x_init : xstate :=
-  {| x_ptab := nempty; x_slot := 0; x_cur := empty_tables 0 false; x_cert := nempty;
-     x_slots := nempty; x_grams := nempty; x_rel := nempty; x_out := [] |}.
+  {| x_ptab := nempty; x_slot := 0; x_cur := empty_tables 0 false; x_cert := nempty; x_items := nempty;
+     x_first := nempty; x_slots := nempty; x_grams := nempty; x_rel := nempty; x_out := [] |}.
 
 Definition emit (s : xstate) (l : list N) : xstate :=
-  {| x_ptab := x_ptab s; x_slot := x_slot s; x_cur := x_cur s; x_cert := x_cert s;
-     x_slots := x_slots s; x_grams := x_grams s; x_rel := x_rel s; x_out := l :: x_out s |}.
+  {| x_ptab := x_ptab s; x_slot := x_slot s; x_cur := x_cur s; x_cert := x_cert s; x_items := x_items s;
+     x_first := x_first s; x_slots := x_slots s; x_grams := x_grams s; x_rel := x_rel s; x_out := l :: x_out s |}.
 
 Definition with_cur (s : xstate) (slot : N) (t : tables) (c : cert) : xstate :=
-  {| x_ptab := x_ptab s; x_slot := slot; x_cur := t; x_cert := c;
-     x_slots := x_slots s; x_grams := x_grams s; x_rel := x_rel s; x_out := x_out s |}.
+  {| x_ptab := x_ptab s; x_slot := slot; x_cur := t; x_cert := c; x_items := x_items s;
+     x_first := x_first s; x_slots := x_slots s; x_grams := x_grams s; x_rel := x_rel s; x_out := x_out s |}.
+
+Definition with_items (s : xstate) (i : icert) : xstate :=
+  {| x_ptab := x_ptab s; x_slot := x_slot s; x_cur := x_cur s; x_cert := x_cert s; x_items := i;
+     x_first := x_first s; x_slots := x_slots s; x_grams := x_grams s; x_rel := x_rel s; x_out := x_out s |}.
+
+Definition with_first (s : xstate) (f : fcert) : xstate :=
+  {| x_ptab := x_ptab s; x_slot := x_slot s; x_cur := x_cur s; x_cert := x_cert s; x_items := x_items s;
+     x_first := f; x_slots := x_slots s; x_grams := x_grams s; x_rel := x_rel s; x_out := x_out s |}.
+
+Definition with_ptab (s : xstate) (p : nmap production) : xstate :=
+  {| x_ptab := p; x_slot := x_slot s; x_cur := x_cur s; x_cert := x_cert s; x_items := x_items s;
+     x_first := x_first s; x_slots := x_slots s; x_grams := x_grams s; x_rel := x_rel s; x_out := x_out s |}.
+
+Definition with_slots (s : xstate) (m : nmap (tables * cert * icert)) : xstate :=
+  {| x_ptab := x_ptab s; x_slot := x_slot s; x_cur := x_cur s; x_cert := x_cert s; x_items := x_items s;
+     x_first := x_first s; x_slots := m; x_grams := x_grams s; x_rel := x_rel s; x_out := x_out s |}.
+
+Definition with_grams (s : xstate) (m : nmap grammar) : xstate :=
+  {| x_ptab := x_ptab s; x_slot := x_slot s; x_cur := x_cur s; x_cert := x_cert s; x_items := x_items s;
+     x_first := x_first s; x_slots := x_slots s; x_grams := m; x_rel := x_rel s; x_out := x_out s |}.
+
+Definition with_rel (s : xstate) (r : rel) : xstate :=
+  {| x_ptab := x_ptab s; x_slot := x_slot s; x_cur := x_cur s; x_cert := x_cert s; x_items := x_items s;
+     x_first := x_first s; x_slots := x_slots s; x_grams := x_grams s; x_rel := r; x_out := x_out s |}.
+
+Definition mask_of (l : list N) : N := fold_left (fun m b => N.lor m (bit b)) l 0.
 
 Fixpoint decode_acts (pt : nmap production) (l : list N) : option (list (N * act)) :=
   match l with
@@ -131,10 +163,9 @@ Definition enc_result (r : result) : list N :=
 
 Definition step (s : xstate) (line : list N) : xstate :=
   match line with
-  | [1; slot; eoi; dflt] => with_cur s slot (empty_tables eoi (negb (N.eqb dflt 0))) nempty
-  | 2 :: idx :: lhs :: rhs =>
-      {| x_ptab := nset (x_ptab s) idx (lhs, rhs); x_slot := x_slot s; x_cur := x_cur s; x_cert := x_cert s;
-         x_slots := x_slots s; x_grams := x_grams s; x_rel := x_rel s; x_out := x_out s |}
+  | [1; slot; eoi; dflt] =>
+      with_items (with_cur s slot (empty_tables eoi (negb (N.eqb dflt 0))) nempty) nempty
+  | 2 :: idx :: lhs :: rhs => with_ptab s (nset (x_ptab s) idx (lhs, rhs))
   | 3 :: st :: l =>
       match decode_acts (x_ptab s) l with
       | Some r => with_cur s (x_slot s) (set_action (x_cur s) st r) (x_cert s)
@@ -152,42 +183,32 @@ Definition step (s : xstate) (line : list N) : xstate :=
       | None => emit s [0; 6]
       end
   | 7 :: st :: ks => with_cur s (x_slot s) (x_cur s) (nset (x_cert s) st ks)
-  | [8] =>
-      {| x_ptab := x_ptab s; x_slot := x_slot s; x_cur := x_cur s; x_cert := x_cert s;
-         x_slots := nset (x_slots s) (x_slot s) (x_cur s, x_cert s);
-         x_grams := x_grams s; x_rel := x_rel s; x_out := x_out s |}
+  | [8] => with_slots s (nset (x_slots s) (x_slot s) (x_cur s, x_cert s, x_items s))
   | 9 :: g :: start :: l =>
       match decode_prods (x_ptab s) l with
-      | Some ps =>
-          {| x_ptab := x_ptab s; x_slot := x_slot s; x_cur := x_cur s; x_cert := x_cert s;
-             x_slots := x_slots s; x_grams := nset (x_grams s) g {| g_start := start; g_prods := ps |};
-             x_rel := x_rel s; x_out := x_out s |}
+      | Some ps => with_grams s (nset (x_grams s) g {| g_start := start; g_prods := ps |})
       | None => emit s [0; 9; g]
       end
   | [10; g; slot] =>
       match nget (x_grams s) g, nget (x_slots s) slot with
-      | Some G, Some (T, C) => emit s [10; g; slot; b2n (check_sound G T C)]
+      | Some G, Some (T, C, _) => emit s [10; g; slot; b2n (check_sound G T C)]
       | _, _ => emit s [0; 10; g; slot]
       end
-  | 11 :: a :: bs =>
-      {| x_ptab := x_ptab s; x_slot := x_slot s; x_cur := x_cur s; x_cert := x_cert s;
-         x_slots := x_slots s; x_grams := x_grams s; x_rel := nset (x_rel s) a bs; x_out := x_out s |}
+  | 11 :: a :: bs => with_rel s (nset (x_rel s) a bs)
   | [12; sa; sb] =>
       match nget (x_slots s) sa, nget (x_slots s) sb with
-      | Some (A, _), Some (B, _) =>
-          let s' := emit s [12; sa; sb; b2n (bisim_check_rel (x_rel s) A B); b2n (rel_diag (x_rel s))] in
-          {| x_ptab := x_ptab s'; x_slot := x_slot s'; x_cur := x_cur s'; x_cert := x_cert s';
-             x_slots := x_slots s'; x_grams := x_grams s'; x_rel := nempty; x_out := x_out s' |}
+      | Some (A, _, _), Some (B, _, _) =>
+          with_rel (emit s [12; sa; sb; b2n (bisim_check_rel (x_rel s) A B); b2n (rel_diag (x_rel s))]) nempty
       | _, _ => emit s [0; 12; sa; sb]
       end
   | 13 :: slot :: fuel :: toks =>
       match nget (x_slots s) slot with
-      | Some (T, _) => emit s (13 :: enc_result (run T (N.to_nat fuel) toks))
+      | Some (T, _, _) => emit s (13 :: enc_result (run T (N.to_nat fuel) toks))
       | None => emit s [0; 13; slot]
       end
   | 14 :: sc :: sf :: l =>
       match nget (x_slots s) sc, nget (x_slots s) sf, decode_prods (x_ptab s) l with
-      | Some (Cd, _), Some (F, _), Some irp =>
+      | Some (Cd, _, _), Some (_, _, _), Some irp =>
           emit s [14; b2n (prodset_eqb (t_prods Cd) irp)]
       | _, _, _ => emit s [0; 14; sc; sf]
       end
@@ -195,6 +216,16 @@ Definition step (s : xstate) (line : list N) : xstate :=
       match decode_prods (x_ptab s) (firstn (N.to_nat n) l), decode_prods (x_ptab s) (skipn (N.to_nat n) l) with
       | Some p, Some q => emit s [15; b2n (prodset_eqb p q)]
       | _, _ => emit s [0; 15]
+      end
+  | 20 :: st :: pcode :: d :: las =>
+      let po := match pcode with 0 => None | _ => Some (N.pred pcode) end in
+      let old := match nget (x_items s) st with Some l => l | None => [] end in
+      with_items s (nset (x_items s) st (((po, N.to_nat d), mask_of las) :: old))
+  | 21 :: X :: nl :: syms => with_first s (nset (x_first s) X (negb (N.eqb nl 0), mask_of syms))
+  | [22; g; slot] =>
+      match nget (x_grams s) g, nget (x_slots s) slot with
+      | Some G, Some (T, _, Its) => with_first (emit s [22; g; slot; b2n (check_complete G T Its (x_first s))]) nempty
+      | _, _ => emit s [0; 22; g; slot]
       end
   | tag :: _ => emit s [0; tag]
   | [] => s
@@ -206,8 +237,10 @@ Definition main (lines : list (list N)) : list (list N) :=
 (* building tables/certificates directly from lines, for examples and instance theorems *)
 Definition final (lines : list (list N)) : xstate := fold_left step lines x_init.
 Definition slot_tables (s : xstate) (slot : N) : tables :=
-  match nget (x_slots s) slot with Some (T, _) => T | None => empty_tables 0 false end.
+  match nget (x_slots s) slot with Some (T, _, _) => T | None => empty_tables 0 false end.
 Definition slot_cert (s : xstate) (slot : N) : cert :=
-  match nget (x_slots s) slot with Some (_, C) => C | None => nempty end.
+  match nget (x_slots s) slot with Some (_, C, _) => C | None => nempty end.
+Definition slot_items (s : xstate) (slot : N) : icert :=
+  match nget (x_slots s) slot with Some (_, _, Its) => Its | None => nempty end.
 Definition slot_grammar (s : xstate) (g : N) : grammar :=
   match nget (x_grams s) g with Some G => G | None => {| g_start := 0; g_prods := [] |} end.
